@@ -23,7 +23,7 @@ Proof.
     - cbn [app]. destruct (arch_string e) as [|c r]; [now specialize (Hn eq_refl)|]. exists c, (r ++ more).
       cbn in Hc. apply andb_true_iff in Hc as [Hc _]. unfold archc in Hc. apply negb_true_iff in Hc.
       apply orb_false_iff in Hc as [Hc _]. apply orb_false_iff in Hc as [Hc C3]. apply orb_false_iff in Hc as [C1 _].
-      repeat split; auto. }
+      apply bad_arch_0 in C1. repeat split; auto. }
   destruct Hhd as (c&r&E&C0&C93). rewrite E. rewrite C0, C93. rewrite <- E.
   rewrite (parse_one_arch_render nt acc e more We (or_intror I) Hs Hm). reflexivity.
 Qed.
@@ -111,7 +111,7 @@ Proof.
     - cbn [app]. destruct (s_name st) as [|c r]; [now specialize (Hn eq_refl)|]. exists c, (r ++ more).
       cbn in Hc. apply andb_true_iff in Hc as [Hc _]. unfold stagec in Hc. apply negb_true_iff in Hc.
       apply orb_false_iff in Hc as [Hc _]. apply orb_false_iff in Hc as [Hc C3]. apply orb_false_iff in Hc as [C1 _].
-      repeat split; auto. }
+      apply bad_stage_0 in C1. repeat split; auto. }
   destruct Hhd as (c&r&E&C0&C62). rewrite E. rewrite C0, C62. rewrite <- E.
   rewrite ?(eat_ws_id _ HO). rewrite (stage_render st more Ws Hs Hm). reflexivity.
 Qed.
